@@ -57,12 +57,30 @@ type c36blk struct {
 	parent int
 	miner  int
 	hash   string
+	// twin >= 0: this block competes with block #twin of the same round for the same RoundRank with another
+	// hash. restart = false: equivocation (same generator, same round seed). restart = true: the round was
+	// restarted after a timeout (timeout count 1, another round seed) and the generator is the miner that
+	// holds under the new seed the rank the twin's generator held under the old one (resolved at execution
+	// time from the real rank computation; falls back to equivocation when no such miner exists).
+	twin    int
+	restart bool
 }
 
 type c36tree struct {
 	b      []c36blk // b[0] = genesis
 	rounds int64
 	seed   uint64
+	// collide[r]: round r holds two blocks that may get the same RoundRank (a twin pair, or more blocks than
+	// miners); the round then keeps only one of them (C35) and which one depends on the arrival order
+	collide map[int64]bool
+}
+
+// rrsT is the round random seed of round r after toc timeouts (toc 0 = rrs).
+func (t *c36tree) rrsT(r int64, toc int) int64 {
+	if toc == 0 {
+		return t.rrs(r)
+	}
+	return int64(sim.Hash64(fmt.Sprint(t.seed), "rrs", fmt.Sprint(r), fmt.Sprint(toc))>>2) + 1
 }
 
 func (t *c36tree) rrs(r int64) int64 {
@@ -80,6 +98,7 @@ func c36build(seed uint64, cfg map[string]int64) *c36tree {
 	}
 	rounds, width, miners := get("rounds", 6), int(get("width", 2)), int(get("miners", 3))
 	pFork, pLong := float64(get("pfork", 30))/100, float64(get("plong", 20))/100
+	pTwin := float64(get("ptwin", 0)) / 100
 	if width > miners {
 		width = miners
 	}
@@ -87,11 +106,18 @@ func c36build(seed uint64, cfg map[string]int64) *c36tree {
 		width = 1
 	}
 	t := &c36tree{rounds: rounds, seed: seed}
-	t.b = append(t.b, c36blk{round: 0, parent: -1, miner: 0, hash: miHash(seed, "blk", 0)})
+	t.b = append(t.b, c36blk{round: 0, parent: -1, miner: 0, hash: miHash(seed, "blk", 0), twin: -1})
 	cur := []int{0}
+	extendAll := false
 	for rn := int64(1); rn <= rounds; rn++ {
 		var parents []int
-		if len(cur) > 1 && r.Bool(pLong) {
+		if extendAll {
+			// the round after a same-rank pair: both branches are extended (and notarized)
+			parents = append(parents, cur...)
+			if w := max(width, 2); len(parents) > w {
+				parents = parents[:w]
+			}
+		} else if len(cur) > 1 && r.Bool(pLong) {
 			// every live branch is extended: forks get deeper
 			parents = append(parents, cur...)
 		} else {
@@ -100,17 +126,35 @@ func c36build(seed uint64, cfg map[string]int64) *c36tree {
 		for len(parents) < width && r.Bool(pFork) {
 			parents = append(parents, cur[r.Intn(len(cur))]) // a sibling or another branch
 		}
-		if len(parents) > width {
+		if len(parents) > width && !extendAll {
 			parents = parents[:width]
 		}
-		mperm := r.Perm(miners)
+		extendAll = false
+		mperm := r.Perm(max(miners, len(parents)))
 		var next []int
 		for j, pa := range parents {
 			idx := len(t.b)
-			t.b = append(t.b, c36blk{round: rn, parent: pa, miner: mperm[j], hash: miHash(seed, "blk", idx)})
+			t.b = append(t.b, c36blk{round: rn, parent: pa, miner: mperm[j] % miners, hash: miHash(seed, "blk", idx), twin: -1})
 			next = append(next, idx)
 		}
+		if pTwin > 0 && rn < rounds && r.Bool(pTwin) {
+			// a second block with the rank of next[0]: the twin pair goes first so that the next round extends both
+			a := next[0]
+			idx := len(t.b)
+			t.b = append(t.b, c36blk{round: rn, parent: cur[r.Intn(len(cur))], miner: t.b[a].miner, hash: miHash(seed, "blk", idx), twin: a, restart: r.Bool(0.6)})
+			next = append([]int{a, idx}, next[1:]...)
+			extendAll = true
+		}
 		cur = next
+	}
+	t.collide = map[int64]bool{}
+	seen := map[string]bool{}
+	for _, b := range t.b[1:] {
+		k := fmt.Sprint(b.round, "/", b.miner)
+		if seen[k] || b.twin >= 0 {
+			t.collide[b.round] = true
+		}
+		seen[k] = true
 	}
 	return t
 }
@@ -161,7 +205,7 @@ func (t *c36tree) dca(s []int) int {
 
 // ---- plan ----------------------------------------------------------------------------------------
 //
-// cfg: inst, rounds, width, miners, pfork, plong, scheme
+// cfg: inst, rounds, width, miners, pfork, plong, ptwin (share of rounds with two blocks of one rank), scheme
 // steps:
 //   nb   A=inst I=[blk]          block #blk arrives notarized (Chain.AddNotarizedBlockToRound; the round object is created when absent)
 //   blk  A=inst I=[blk]          block #blk arrives as a plain round block (Chain.AddRoundBlock): known, not notarized
@@ -179,6 +223,7 @@ func genC36(seed uint64, tier string) *sim.Plan {
 	p := &sim.Plan{Cfg: map[string]int64{
 		"inst": int64(sw.Range(1, 3)), "rounds": int64(sw.Range(3, maxR)), "width": int64(width), "miners": int64(width + sw.Range(0, 2)),
 		"pfork": int64([]int{0, 15, 35, 60}[sw.Intn(4)]), "plong": int64([]int{0, 20, 50, 90}[sw.Intn(4)]), "scheme": int64(sw.Intn(2)),
+		"ptwin": int64([]int{0, 0, 10, 30}[sw.Intn(4)]),
 	}}
 	t := c36build(seed, p.Cfg)
 	nInst := int(p.Cfg["inst"])
@@ -304,6 +349,31 @@ func runC36(tr *sim.Trace, p *sim.Plan) {
 		go c.FinalizedBlockWorker(ctx, in.bsh)
 		insts[i] = in
 	}
+	// generator, round seed and timeout count of every block; restart twins are resolved with the real rank code
+	minerOf := make([]int, len(t.b))
+	seedOf := make([]int64, len(t.b))
+	tocOf := make([]int, len(t.b))
+	rankUnder := func(rn, seed int64, m int) int {
+		tmp := round.NewRound(rn)
+		tmp.SetRandomSeed(seed, nMiners)
+		return tmp.GetMinerRank(insts[0].c.GetMiners(rn).GetNode(ids[m].id))
+	}
+	for x, b := range t.b {
+		minerOf[x], seedOf[x] = b.miner%nMiners, t.rrs(b.round)
+		if b.twin < 0 || !b.restart || nMiners < 2 {
+			continue
+		}
+		target := rankUnder(b.round, t.rrs(b.round), minerOf[b.twin])
+	search:
+		for toc := 1; toc <= 6; toc++ {
+			for m := 0; m < nMiners; m++ {
+				if m != minerOf[b.twin] && rankUnder(b.round, t.rrsT(b.round, toc), m) == target {
+					minerOf[x], seedOf[x], tocOf[x] = m, t.rrsT(b.round, toc), toc
+					break search
+				}
+			}
+		}
+	}
 	synctest.Wait()
 	defer func() {
 		time.Sleep(10 * time.Second) // let the LFB notification goroutines time out
@@ -335,6 +405,21 @@ func runC36(tr *sim.Trace, p *sim.Plan) {
 		complete bool  // every round object and every block the walk needs is present locally
 		set      []int
 	}
+	// the notarized blocks a round of the instance lists (the input of the computation under check)
+	listed := func(in *c36inst, rn int64) []int {
+		r := in.c.GetRound(rn)
+		if r == nil {
+			return nil
+		}
+		var l []int
+		for _, nb := range r.GetNotarizedBlocks() {
+			if x, ok := idxOf[nb.Hash]; ok {
+				l = append(l, x)
+			}
+		}
+		sort.Ints(l)
+		return l
+	}
 	reference := func(in *c36inst, lfbr, rn int64) ref {
 		out := ref{k: -1, want: -1, complete: true}
 		for q := rn; q > lfbr && q >= 0; q-- {
@@ -342,18 +427,14 @@ func runC36(tr *sim.Trace, p *sim.Plan) {
 				out.complete = false
 				continue
 			}
-			if len(in.notar[q]) > 0 {
-				out.k = q
+			if l := listed(in, q); len(l) > 0 {
+				out.k, out.set = q, l
 				break
 			}
 		}
 		if out.k < 0 {
 			return out
 		}
-		for b := range in.notar[out.k] {
-			out.set = append(out.set, b)
-		}
-		sort.Ints(out.set)
 		out.want = t.dca(out.set)
 		// "present locally": delivered, and not dropped again by the node itself (finalizeBlock deletes the dead
 		// blocks of the round ten blocks behind a finalized block)
@@ -386,6 +467,14 @@ func runC36(tr *sim.Trace, p *sim.Plan) {
 				tr.Probe("fork_depth_gt1")
 			}
 		}
+		for _, a := range rf.set {
+			for _, b := range rf.set {
+				pa, pb := t.b[a].parent, t.b[b].parent
+				if pa >= 0 && pb >= 0 && pa != pb && (t.b[pa].twin == pb || t.b[pb].twin == pa) {
+					tr.Probe("parents_same_rank_different_hash")
+				}
+			}
+		}
 		if !rf.complete {
 			tr.Fault("missing_block_or_round")
 		}
@@ -401,8 +490,12 @@ func runC36(tr *sim.Trace, p *sim.Plan) {
 		b := block.NewBlock(in.c.GetKey(), bi.round)
 		b.Hash = bi.hash
 		b.PrevHash = t.b[bi.parent].hash
-		b.MinerID = ids[bi.miner%nMiners].id
-		b.SetRoundRandomSeed(t.rrs(bi.round))
+		b.MinerID = ids[minerOf[blk]].id
+		b.SetRoundRandomSeed(seedOf[blk])
+		b.RoundTimeoutCount = tocOf[blk]
+		if bi.twin >= 0 {
+			tr.Probe(map[bool]string{true: "same_rank_block_after_round_restart", false: "same_rank_block_equivocation"}[tocOf[blk] > 0])
+		}
 		b.CreateState(in.c.GetStateDB(), nil)
 		b.SetStateStatus(block.StateSuccessful)
 		r := roundOf(in, bi.round)
@@ -428,7 +521,18 @@ func runC36(tr *sim.Trace, p *sim.Plan) {
 			want = append(want, x)
 		}
 		sort.Ints(want)
-		if fmt.Sprint(got) != fmt.Sprint(want) {
+		subset := true
+		for _, x := range got {
+			if !in.notar[bi.round][x] {
+				subset = false
+			}
+		}
+		if t.collide[bi.round] && subset && len(got) > 0 {
+			// blocks competing for one rank: the round keeps one of them (C35); which one is order-dependent
+			if len(got) < len(want) {
+				tr.Probe("round_dropped_same_rank_block")
+			}
+		} else if fmt.Sprint(got) != fmt.Sprint(want) {
 			viol("round-content", "deliver/round-notarized-set-differs", fmt.Sprintf("inst %d round %d lists %v, delivered notarized %v", i, bi.round, got, want))
 		}
 		tr.Event("%s i=%d %s parent=%s dup=%v", map[bool]string{true: "nb", false: "blk"}[notarized], i, t.name(blk), t.name(bi.parent), dup)
@@ -521,7 +625,7 @@ func runC36(tr *sim.Trace, p *sim.Plan) {
 				continue
 			}
 			r := in.c.GetRound(rn)
-			if r == nil || len(in.notar[rn]) == 0 {
+			if r == nil || len(listed(in, rn)) == 0 {
 				// FinalizeRoundImpl would go and ask the miners for a notarized block: no peers here
 				tr.Outcome("fin/nothing-notarized")
 				continue
